@@ -53,6 +53,7 @@ func (c03) Gen(r *rand.Rand, tier string, idx int) *core.Plan {
 	w["chain"] = int64(r.IntN(4)) // 0 self-signed leaf; 1..3 = 0..2 intermediates
 	w["statements"] = int64(1 + r.IntN(3))
 	w["hasScoped"] = int64(r.IntN(2))
+	w["traversal"] = int64(core.Pick(r, 0, 0, 0, 0, 1, 2, 3, 4))
 	w["plugin"] = int64(r.IntN(3) / 2)
 	w["authLogged"] = int64(r.IntN(3) / 2)
 	// per statement: a list of store indexes (type*3+name), with duplicates
@@ -158,6 +159,17 @@ func (l c03) Exec(env *core.Env) *core.Result {
 	if applicable < 0 {
 		applicable = nst - 1 // wildcard
 	}
+	if w["traversal"] != 0 {
+		// the applicable statement also lists store values whose NAME walks into the directory of another store
+		// type (or out of the trust-store tree). Such a value may be refused with the document; if it is not,
+		// it names a store that cannot be loaded - it never makes another type's certificates count
+		n := c03StoreNames[(w["traversal"]-1)%3]
+		extra := []string{"ca:../signingAuthority/" + n, "signingAuthority:../ca/" + n, "ca:../tsa/" + n}
+		if w["traversal"] > 3 {
+			extra = []string{"ca:../../../../elsewhere", "signingAuthority:../../../../elsewhere"}
+		}
+		sts[applicable].TrustStores = append(sts[applicable].TrustStores, extra...)
+	}
 	doc := world.OCIDoc(sts...)
 	// the blob document holds the same statements (addressed by name; the last one is the global statement)
 	var bsts []trustpolicy.BlobTrustPolicy
@@ -182,6 +194,11 @@ func (l c03) Exec(env *core.Env) *core.Result {
 		rec := &world.RecordingStore{Inner: truststore.NewX509TrustStore(dir.NewSysFS(root))}
 		v, err := verifier.NewVerifierWithOptions(rec, verifier.VerifierOptions{OCITrustPolicy: doc, BlobTrustPolicy: bdoc, PluginManager: c03Manager})
 		if err != nil {
+			if w["traversal"] != 0 {
+				res.Probe("document_with_traversal_store_name_refused")
+				res.Nontrivial = true
+				return
+			}
 			res.Violate("HARNESS/verifier", "", "%v (stores %v)", err, sts)
 			return
 		}
